@@ -587,3 +587,22 @@ Theorem C11_vfp_lens_spec : forall mv path v put,
   exists p, get_at p (VMap mv) = Some v /\ forall x, put x = entries_of (update_at p x (VMap mv)).
 Proof. exact vfp_lens_spec. Qed.
 Print Assumptions C11_vfp_lens_spec.
+
+(* ---- the lens IS what the translated Map.ValueForPath finds: the located ValuesForPath of the model reports the values of the
+   unlocated one (the translated ValuesForPath, PureG5 / PureG9) in the same order (GenProofs/PureG24.v) *)
+From Mxj Require Import GenProofs.PureG24.
+
+Theorem C11_values_for_path_loc_values : forall pf sep m path,
+  values_for_path pf sep m path [] = bind (values_for_path_loc m path) (fun l => Ok (map snd l)).
+Proof. exact values_for_path_loc_values. Qed.
+Print Assumptions C11_values_for_path_loc_values.
+
+Theorem C11_value_for_path_code_is_lens : forall pf st mv path, g_fieldSep st <> [] ->
+  fn_ValueForPath (run_ValuesForPath pf st) st mv path
+  = match vfp_lens mv path with
+    | Ok (v, _) => Ret (Ok v)
+    | Err e => Ret (Err e)
+    | Panic => Crash
+    end.
+Proof. exact value_for_path_code_is_lens. Qed.
+Print Assumptions C11_value_for_path_code_is_lens.
